@@ -60,7 +60,8 @@ type c12CtxRow struct {
 	J       int      `json:"j"` // index of the party that presents the proof
 	V       int      `json:"v"` // index of the honest verifier
 	N       int      `json:"n"`
-	Vary    string   `json:"vary"` // ssid rows: the session input that differs (keys | keydata)
+	Vary    string   `json:"vary"`  // ssid rows: the session input that differs (keys | keydata)
+	CtxOf   string   `json:"ctxof"` // whose index the context of the site names: prover | recipient
 	Predict string   `json:"predict"`
 	Weak    []string `json:"weak"` // weakened designs of the model under which this replay would be accepted
 }
@@ -178,6 +179,7 @@ type c12CtxSite struct {
 	oneRow   bool // quick tier: one index row
 	// thoroughOnly: not exercised in the quick tier (the combined site of the same rounds is)
 	thoroughOnly bool
+	recordOnly   bool // one row, recorded (the model does not reject it)
 }
 
 var c12CtxSites = []*c12CtxSite{
@@ -189,6 +191,8 @@ var c12CtxSites = []*c12CtxSite{
 	{proto: pump.EcSigning, name: "gamma", msg: "SignRound4Message", whole: []string{"SignRound1Message2", "SignRound4Message"}, calField: "proof_t", oneRow: true},
 	{proto: pump.EcSigning, name: "av", msg: "SignRound6Message", whole: []string{"SignRound5Message", "SignRound6Message"}, calField: "proof_t", oneRow: true},
 	{proto: pump.EcReshare, name: "mod", msg: "DGRound2Message1", fields: map[string][]string{"DGRound2Message1": {"paillier_n", "modProof"}}, noFac: true, calField: "modProof", calIdx: 0, costly: true},
+	// recorded, not judged: the factorisation proof of ecdsa resharing is made under the RECIPIENT's index (the model accepts its replay)
+	{proto: pump.EcReshare, name: "fac-to", thoroughOnly: true, recordOnly: true, msg: "DGRound4Message1", fields: map[string][]string{"DGRound2Message1": {"paillier_n"}, "DGRound4Message1": {"facProof"}}, noMod: true, calField: "facProof", calIdx: -1, costly: true},
 }
 
 func c12CtxSiteOf(proto, name string) *c12CtxSite {
@@ -976,12 +980,20 @@ func c12CtxPlan(ctx *core.Ctx, m *c12CtxModel) c12CtxPlanned {
 			}
 		}
 		// --- committees of three: the ordered pairs over {0,1,2} (index 0 appends nothing to the ssid)
-		if ctx.Thorough() {
-			for _, r := range idx3 {
+		if st.recordOnly {
+			if len(idx3) > 0 {
+				addSmall(idx3[(seed+ord)%len(idx3)])
+			}
+		} else if ctx.Thorough() {
+			for k, r := range idx3 {
+				// the isolated sites of ECDSA key generation (a session costs 12 CPU seconds): every second ordered pair
+				if st.thoroughOnly && (k+seed)%2 == 1 {
+					continue
+				}
 				addSmall(r)
 			}
 			for _, r := range idx5 {
-				if (r.I == 3 && r.J == 4) || (r.I == 4 && r.J == 0) {
+				if !st.costly && ((r.I == 3 && r.J == 4) || (r.I == 4 && r.J == 0)) {
 					addSmall(r)
 				}
 			}
@@ -1275,11 +1287,11 @@ func c12RoundsContext(ctx *core.Ctx, cov *core.Cov) *c12CtxReport {
 		case r.Predict == "accept" && res.Outcome != "accepted":
 			// nothing forbids a library that refuses this (e.g. an ssid with a fresh nonce); but then the rejections of the
 			// neighbouring rows are not known to be due to the context alone
-			rep.Drift = append(rep.Drift, fmt.Sprintf("control %s: the model accepts a proof presented under the same session inputs and index, the code %s it", r.key(), res.Outcome))
+			rep.Drift = append(rep.Drift, fmt.Sprintf("row %s: the model accepts this proof (same session inputs and same index named by the context), the code: %s", r.key(), res.Outcome))
 		case r.Predict == "reject" && res.Outcome == "rejected" && !res.Clean:
 			rep.Drift = append(rep.Drift, fmt.Sprintf("row %s: rejected, but the verifier's culprits are %v (blame is C05's matter)", r.key(), res.Obs.Culprits))
 		}
-		if bad || len(cov.Samples) < 18 && i%5 == 0 {
+		if bad || i%5 == 0 {
 			cov.Sample(map[string]any{"case": "context|" + r.key(), "model": r.Predict, "code": res.Outcome, "verifier": res.Obs, "replacements": res.Applied}, 18)
 		}
 	}
@@ -1327,8 +1339,17 @@ func c12RoundsContext(ctx *core.Ctx, cov *core.Cov) *c12CtxReport {
 			rowList = append(rowList, fmt.Sprintf("%s: model %s, code %s (%.1fs)", r.Case.Row.key(), r.Case.Row.Predict, r.Outcome, r.Wall))
 		}
 	}
+	var recorded []string
+	for i := range rep.Results {
+		r := &rep.Results[i]
+		if st := c12CtxSiteOf(r.Case.Row.Proto, r.Case.Row.Site); st != nil && st.recordOnly && r.Skip == "" {
+			recorded = append(recorded, fmt.Sprintf("%s: the context of this site names the %s, not the prover: with the modulus proofs switched off (SetNoProofMod) the party at index %d presented the Paillier modulus and the factorisation proof of the party at index %d to the party at index %d, which %s them (model: %s)",
+				r.Case.Row.key(), r.Case.Row.CtxOf, r.Case.Row.J, r.Case.Row.I, r.Case.VIdx, r.Outcome, r.Case.Row.Predict))
+		}
+	}
 	cov.Set("context", map[string]any{
 		"rows":                    rowList,
+		"recorded_not_judged":     recorded,
 		"tlc":                     map[string]any{"module": "ProofContext", "distinct": m.Res.Distinct, "generated": m.Res.Generated, "wall_s": m.Res.Wall, "invariants": "ReplayRejected; ASSUME DesignInjective, DiscriminatingEnc, DiscriminatingDeriv, CatalogueTellsApart"},
 		"catalogue_rows":          len(m.Rows),
 		"rows_executed_on_rounds": rep.Executed,
